@@ -125,6 +125,14 @@ def build_plan(choice: Choice, tier):
         if cands:
             w, i = cands[d(len(cands), "unencodable.which")]
             scripts[w][i][2] = scripts[w][i][2][:8] + "\udcff-unencodable"
+    # writers may also read between their stores: ids of their own (also not the latest one) or of others
+    if d(3, "writers.read") == 2:
+        for sc in scripts:
+            stores = [o for o in sc if o[0] == "store"]
+            for _ in range(d(3, "writer.reads")):
+                if stores:
+                    g = stores[d(len(stores), "writer.read.which")][1] if d(3, "writer.read.own") else d(n + 1, "writer.read.any")
+                    sc.insert(1 + d(len(sc), "writer.read.at"), ["get", g])
     for sc in scripts:
         if len(sc) >= 2 and d(5, "reopen") == 4 and not p["write_fault"]:
             sc.insert(1 + d(len(sc) - 1, "reopen.at"), ["reopen"])
@@ -133,13 +141,17 @@ def build_plan(choice: Choice, tier):
     return p
 
 
-SAMPLES = ["plain", "with space ", " lead", "tab\there", "žluťoučký kůň", "a,b;c|d", "\"quoted\"", "x" * 40, "日本語テキスト", "-"]
+SAMPLES = ["plain", "with space ", " lead", "tab\there", "žluťoučký kůň", "a,b;c|d", "\"quoted\"", "x" * 40, "日本語テキスト", "-",
+           # characters that str.splitlines() treats as boundaries but that do not end a line of a text file
+           "vt\x0bff\x0cfs\x1cgs\x1drs\x1e", "nel\x85ls\u2028ps\u2029end"]
 
 
 def text_of(g, w, long):
     base = f"id{g}:w{w}:{SAMPLES[(g * 7 + w) % len(SAMPLES)]}"
     if long:
-        base += "L" * 20000
+        # longer than any I/O block; every second variant is multi-byte all the way (a block boundary then falls
+        # inside a character)
+        base += ("L" * 20000) if g % 2 else ("é€" * 7000)
     return base
 
 
